@@ -477,6 +477,10 @@ def gen_sentence(rng: random.Random, rules, e, depth=0) -> str:  # noqa: PLR0911
     return ""
 
 
+EXOTIC_INPUT_CHARS = ["\ud83d", "\ude00", "\ud800", "\udbff", "\udfff", "\U0001F600", "\x00", "\u2028", "\u2029", "\x85", "\r",
+                      "\u00df", "\u0130", "\ufb01", "\uffff", "\U0010ffff"]
+
+
 def gen_inputs(rng: random.Random, rules, start: str, feats: set, n: int) -> list[str]:
     alpha = alphabet(feats)
     out = []
@@ -488,9 +492,12 @@ def gen_inputs(rng: random.Random, rules, start: str, feats: set, n: int) -> lis
             s = gen_sentence(rng, rules, ("id", start, None))[:14]
             if mode == 2 and s:
                 j = rng.randrange(len(s))
-                s = s[:j] + rng.choice(alpha) + s[j + (rng.random() < 0.5):]
+                # now and then a character nobody wrote a grammar for: unpaired surrogates (a `str` may hold them), an astral
+                # character, NUL, the Unicode line separators, letters whose case mappings change length
+                ch = rng.choice(EXOTIC_INPUT_CHARS) if rng.random() < 0.12 else rng.choice(alpha)
+                s = s[:j] + ch + s[j + (rng.random() < 0.5):]
             elif mode == 3:
-                s = s[: rng.randint(0, len(s))] + rng.choice(["", "", " ", "#", "a"])
+                s = s[: rng.randint(0, len(s))] + (rng.choice(EXOTIC_INPUT_CHARS[:6]) if rng.random() < 0.15 else rng.choice(["", "", " ", "#", "a"]))
         out.append(s)
     return out
 
@@ -796,11 +803,39 @@ def gen_squash_template(rng: random.Random):
         alts = extra[:at] + pair[:1] + extra[at:] + pair[1:] if rng.random() < 0.5 else extra[:at] + pair + extra[at:]
     if rng.random() < 0.25:
         alts = alts[:1] + [("group", ("choice", alts[1:3]), None)] + alts[3:] if len(alts) > 3 else alts
+    extra_rules = {}
+    if rng.random() < 0.45:
+        # nested mode: one alternative is itself a choice of literals, a repetition of one, or a silent rule that is one -
+        # what an inlining pass that runs before squash_choice leaves behind, and what a pass that squashes repetitions produces
+        sub = [x for x in rng.sample(pool[:13], rng.choice([2, 2, 3])) if x != ("str", "")] or [("str", "b")]
+        inner = ("choice", sub) if len(sub) > 1 else sub[0]
+        shape = rng.choice(["silent", "silent", "group", "rep", "rep1", "opt", "silent-rep", "class-rep"])
+        if shape == "silent":
+            extra_rules["u"] = ("_", inner)
+            alt = ("id", "u", None)
+        elif shape == "group":
+            alt = ("group", inner, None)
+        elif shape in ("rep", "rep1", "opt"):
+            alt = (shape, ("group", inner, None))
+        elif shape == "silent-rep":
+            extra_rules["u"] = ("_", ("rep", ("group", inner, None)))
+            alt = ("id", "u", None)
+        else:
+            alt = ("rep", rng.choice([("id", "ASCII_DIGIT", None), ("range", "a", "b")]))
+        alts = [a for a in alts if a != ("str", "")][:3] or [("str", "c")]
+        alts.insert(rng.randrange(len(alts) + 1), alt)
     ch = ("group", ("choice", alts), None)
-    body = rng.choice([[ch, ("rep", ("id", "ANY", None))], [ch, ("id", "EOI", None)], [("rep", ch), ("id", "EOI", None)], [ch, ch]])
-    rules = {"r": (rng.choice(["", "@"]), ("seq", body))}
-    if rng.random() < 0.3:
+    body = rng.choice([[ch, ("rep", ("id", "ANY", None))], [ch, ("id", "EOI", None)], [("rep", ch), ("id", "EOI", None)], [ch, ch],
+                       [("rep", ch), ("str", "c")], [("rep1", ch), ("id", "EOI", None)]])
+    rules = {"r": (rng.choice(["", "@", "", "!"]), ("seq", body)), **extra_rules}
+    u = rng.random()
+    if u < 0.3:
         rules["WHITESPACE"] = ("_", ("choice", [("str", " "), ("str", "\t"), ("id", "NEWLINE", None)]))
+    elif u < 0.5:
+        rules["COMMENT"] = (rng.choice(["_", "_", ""]), ("str", "#"))            # a grammar with COMMENT but no WHITESPACE
+    elif u < 0.6:
+        rules["WHITESPACE"] = ("_", ("str", " "))
+        rules["COMMENT"] = (rng.choice(["_", ""]), ("str", "#"))
     return rules
 
 
@@ -976,6 +1011,66 @@ def popall_templates():
             body = [("push", ("id", "l", None)), ("push", ("id", "l", None)),
                     ("group", ("choice", [first, ("str", "")]), None), ("peekall",), ("rep", ("id", "ANY", None))]
             out.append({"r": ("", ("seq", body)), "l": ("_", ("range", "a", "b"))})
+    return out
+
+
+def squash_nested_grid(trivia_kinds=("none", "cm", "ws")):
+    """an all-literal choice one of whose alternatives is again a choice of literals - written in parentheses, behind a silent
+    rule, behind the built-in NEWLINE, or under ? * + - with inner choices the optimizer may and may not fuse on their own
+    ("a" | "ab" is not order preserving), in grammars with no trivia, with COMMENT only and with WHITESPACE only.
+    Yields (rules, passes or None): a silent-rule carrier is inlined *before* squash_choice runs only in a non-default pass
+    order, so those cells come with one."""
+    L = lambda x: ("str", x)  # noqa: E731
+    inners = [[L("a"), L("ab")], [L("ab"), L("a")], [L("a"), L("b")], [L("b"), L("ba"), L("a")], [("range", "a", "b"), L("ab")]]
+    outers = [[L("c")], [L("c"), L("1")], [L("b")]]
+    inline_first = [["inline_silent", "squash_choice"], ["inline_silent", "unroll", "squash_choice", "skip"],
+                    ["unroll", "skip", "inline_builtin", "squash_choice", "inline_silent"] * 2,
+                    ["inline_silent", "squash_choice", "inline_builtin", "skip", "unroll"]]
+    out = []
+    n = 0
+    for inner in inners:
+        for outer in outers:
+            for pos in (0, 1):
+                for carrier in ("silent", "group", "newline", "rep", "rep1", "opt"):
+                    for triv in trivia_kinds:
+                        for bodyk in (0, 1):
+                            n += 1
+                            extra = {}
+                            ich = ("choice", inner)
+                            if carrier == "silent":
+                                extra["u"] = ("_", ich)
+                                alt = ("id", "u", None)
+                            elif carrier == "group":
+                                alt = ("group", ich, None)
+                            elif carrier == "newline":
+                                alt = ("id", "NEWLINE", None)
+                            else:
+                                alt = (carrier, ("group", ich, None))
+                            alts = [alt, *outer] if pos == 0 else [*outer, alt]
+                            ch = ("group", ("choice", alts), None)
+                            plain = ("group", ich, None)
+                            body = [ch, ("id", "EOI", None)] if bodyk == 0 else [("rep", plain), ch, ("rep", ("id", "ANY", None))]
+                            rules = {"r": ("", ("seq", body)), **extra}
+                            if triv == "cm":
+                                rules["COMMENT"] = ("_" if n % 3 else "", L("#"))
+                            elif triv == "ws":
+                                rules["WHITESPACE"] = ("_", L(" "))
+                            passes = inline_first[n % len(inline_first)] if carrier == "silent" or n % 5 == 0 else None
+                            out.append((rules, passes))
+    return out
+
+
+def class_syntax_grid():
+    """choices of one-character literals that mean something inside a regular-expression class ( - ] ^ \\ [ ) between a member
+    that sorts below and one (a literal, a range or a built-in class) that sorts above them, in three orders"""
+    out = []
+    for sp in ("-", "]", "^", "\\", "["):
+        for lo in ("+", "!", "A"):
+            for hi in (("str", "z"), ("str", "/") if sp == "-" else ("str", "~"), ("range", "0", "9") if sp == "-" else ("range", "a", "z"),
+                       ("id", "ASCII_DIGIT", None) if sp == "-" else ("id", "ASCII_ALPHA_LOWER", None)):
+                for order in range(3):
+                    alts = [[("str", lo), ("str", sp), hi], [("str", sp), ("str", lo), hi], [hi, ("str", sp), ("str", lo)]][order]
+                    out.append({"r": ("@", ("seq", [("rep", ("group", ("choice", alts), None)), ("id", "EOI", None)]))})
     return out
 
 
